@@ -96,3 +96,142 @@ example (t : Timeline ℚ) : (Merged2.mk [⟨[]⟩, ⟨[t]⟩]).cycleDuration = 
   nested_cycle_none_of_empty_part _ (by simp)
 
 end C12
+
+/-! ### aggregate timing of a merge of merges (ℚ)
+
+The outer folds see what the inner merges report; with every part non-empty the result is the aggregate of the flat
+merge.  (An *empty* part reports delay 0 and duration 0, which is why the hypothesis is needed: `of([of([]), x])` has
+delay `min 0 x.delay`, the flat merge has `x.delay`.) -/
+
+namespace C12
+
+theorem nested_delay_min (p : Merged ℚ) (ps : List (Merged ℚ)) :
+    (∀ q ∈ p :: ps, (Merged2.mk (p :: ps)).delay ≤ q.delay) ∧
+    ∃ q ∈ p :: ps, (Merged2.mk (p :: ps)).delay = q.delay := by
+  simp only [Merged2.delay, List.map_cons, minFirst, Option.getD_some]
+  obtain ⟨h1, h2⟩ := foldl_min_le (ps.map (·.delay)) p.delay
+  constructor
+  · intro t ht
+    apply h1
+    rcases List.mem_cons.1 ht with rfl | ht
+    · simp
+    · simp only [List.mem_cons, List.mem_map]; right; exact ⟨t, ht, rfl⟩
+  · rcases List.mem_cons.1 h2 with h | h
+    · exact ⟨p, by simp, h⟩
+    · obtain ⟨t, ht, hte⟩ := List.mem_map.1 h
+      exact ⟨t, by simp [ht], hte.symm⟩
+
+theorem nested_duration_max (p : Merged ℚ) (ps : List (Merged ℚ)) :
+    (∀ q ∈ p :: ps, durLe q.duration (Merged2.mk (p :: ps)).duration) ∧
+    ∃ q ∈ p :: ps, (Merged2.mk (p :: ps)).duration = q.duration := by
+  simp only [Merged2.duration, List.map_cons]
+  obtain ⟨h1, h2⟩ := foldl_dur_max (ps.map (·.duration)) p.duration
+  constructor
+  · intro t ht
+    apply h1
+    rcases List.mem_cons.1 ht with rfl | ht
+    · simp
+    · simp only [List.mem_cons, List.mem_map]; right; exact ⟨t, ht, rfl⟩
+  · rcases List.mem_cons.1 h2 with h | h
+    · exact ⟨p, by simp, h⟩
+    · obtain ⟨t, ht, hte⟩ := List.mem_map.1 h
+      exact ⟨t, by simp [ht], hte.symm⟩
+
+theorem durLe_antisymm {a b : Option ℚ} (h1 : durLe a b) (h2 : durLe b a) : a = b := by
+  cases a <;> cases b <;> simp_all [durLe]
+  exact le_antisymm h1 h2
+
+/-- every leaf timeline of a merge of merges with non-empty parts, and the part it sits in -/
+theorem leaf_part (m : Merged2 ℚ) (t : Timeline ℚ) (ht : t ∈ m.flatten.timelines) :
+    ∃ q ∈ m.parts, t ∈ q.timelines := by
+  simpa [Merged2.flatten, List.mem_flatMap] using ht
+
+/-- **delay of a merge of merges = delay of the flat merge**, when no part is empty -/
+theorem nested_delay_eq_flat (m : Merged2 ℚ) (hne : m.parts ≠ [])
+    (hparts : ∀ q ∈ m.parts, q.timelines ≠ []) : m.delay = m.flatten.delay := by
+  obtain ⟨parts⟩ := m
+  cases parts with
+  | nil => exact absurd rfl hne
+  | cons p ps =>
+    obtain ⟨hle, q0, hq0, heq⟩ := nested_delay_min p ps
+    -- the flat list is non-empty
+    have hpne := hparts p (by simp)
+    cases hp : p.timelines with
+    | nil => exact absurd hp hpne
+    | cons t0 ts0 =>
+      have hflat : (Merged2.mk (p :: ps)).flatten.timelines = t0 :: (ts0 ++ ps.flatMap (·.timelines)) := by
+        simp [Merged2.flatten, hp]
+      obtain ⟨fle, ft, hft, feq⟩ := merged_delay_min t0 (ts0 ++ ps.flatMap (·.timelines))
+      have hflat' : (Merged2.mk (p :: ps)).flatten = Merged.mk (t0 :: (ts0 ++ ps.flatMap (·.timelines))) := by
+        cases hm : (Merged2.mk (p :: ps)).flatten; simp_all
+      rw [hflat']
+      apply le_antisymm
+      · -- nested ≤ flat: the flat minimum is some leaf, in some part, whose delay bounds the nested one from above
+        rw [feq]
+        obtain ⟨q, hq, htq⟩ := leaf_part (Merged2.mk (p :: ps)) ft (by rw [hflat]; exact hft)
+        refine le_trans (hle q hq) ?_
+        cases hqt : q.timelines with
+        | nil => rw [hqt] at htq; simp at htq
+        | cons a as =>
+          have := (merged_delay_min a as).1 ft (by rw [← hqt]; exact htq)
+          have hqe : q = Merged.mk (a :: as) := by cases q; simp_all
+          rw [hqe]; exact this
+      · -- flat ≤ nested: the nested minimum is some part's delay, which is one of its leaves' delays
+        rw [heq]
+        cases hqt : q0.timelines with
+        | nil => exact absurd hqt (hparts q0 hq0)
+        | cons a as =>
+          obtain ⟨_, l, hl, hle2⟩ := merged_delay_min a as
+          have hqe : q0 = Merged.mk (a :: as) := by cases q0; simp_all
+          rw [hqe, hle2]
+          apply fle
+          rw [← hflat]
+          simp only [Merged2.flatten, List.mem_flatMap]
+          exact ⟨q0, hq0, by rw [hqt]; exact hl⟩
+
+/-- **total duration of a merge of merges = that of the flat merge**, when no part is empty -/
+theorem nested_duration_eq_flat (m : Merged2 ℚ) (hne : m.parts ≠ [])
+    (hparts : ∀ q ∈ m.parts, q.timelines ≠ []) : m.duration = m.flatten.duration := by
+  obtain ⟨parts⟩ := m
+  cases parts with
+  | nil => exact absurd rfl hne
+  | cons p ps =>
+    obtain ⟨hle, q0, hq0, heq⟩ := nested_duration_max p ps
+    have hpne := hparts p (by simp)
+    cases hp : p.timelines with
+    | nil => exact absurd hp hpne
+    | cons t0 ts0 =>
+      have hflat : (Merged2.mk (p :: ps)).flatten.timelines = t0 :: (ts0 ++ ps.flatMap (·.timelines)) := by
+        simp [Merged2.flatten, hp]
+      obtain ⟨fle, ft, hft, feq⟩ := merged_duration_max t0 (ts0 ++ ps.flatMap (·.timelines))
+      have hflat' : (Merged2.mk (p :: ps)).flatten = Merged.mk (t0 :: (ts0 ++ ps.flatMap (·.timelines))) := by
+        cases hm : (Merged2.mk (p :: ps)).flatten; simp_all
+      rw [hflat']
+      apply durLe_antisymm
+      · rw [heq]
+        cases hqt : q0.timelines with
+        | nil => exact absurd hqt (hparts q0 hq0)
+        | cons a as =>
+          obtain ⟨_, l, hl, hle2⟩ := merged_duration_max a as
+          have hqe : q0 = Merged.mk (a :: as) := by cases q0; simp_all
+          rw [hqe, hle2]
+          apply fle
+          rw [← hflat]
+          simp only [Merged2.flatten, List.mem_flatMap]
+          exact ⟨q0, hq0, by rw [hqt]; exact hl⟩
+      · rw [feq]
+        obtain ⟨q, hq, htq⟩ := leaf_part (Merged2.mk (p :: ps)) ft (by rw [hflat]; exact hft)
+        refine durLe_trans ?_ (hle q hq)
+        cases hqt : q.timelines with
+        | nil => rw [hqt] at htq; simp at htq
+        | cons a as =>
+          have := (merged_duration_max a as).1 ft (by rw [← hqt]; exact htq)
+          have hqe : q = Merged.mk (a :: as) := by cases q; simp_all
+          rw [hqe]; exact this
+
+/-- the hypothesis is needed: an empty part reports delay 0 -/
+example : ∃ m : Merged2 ℚ, m.parts ≠ [] ∧ m.delay ≠ m.flatten.delay := by
+  refine ⟨⟨[⟨[]⟩, ⟨[⟨[], ⟨1, 1, .none, false⟩, []⟩]⟩]⟩, by simp, ?_⟩
+  simp [Merged2.delay, Merged2.flatten, Merged.delay, minFirst, Timeline.delay, lit]
+
+end C12
